@@ -206,7 +206,7 @@ def run(rep, tier, seed):
     configs = []
     combos = [(bs, ri, comp, bits, cmp) for bs in G.BLOCK_SIZES for ri in G.INTERVALS for comp in (0, 1)
               for bits in G.FILTER_BITS for cmp in (0, 1)]
-    ncfg = 60 if quick else len(combos) + 60
+    ncfg = 80 if quick else len(combos) + 60
     budget = (5 << 20) if quick else (30 << 20)     # bytes of entries over all tables
     used = 0
     for i in range(ncfg):
@@ -314,7 +314,7 @@ def run(rep, tier, seed):
 
     # ================================================================ stage 3: malformed stream (C18)
     ml = []
-    nm = 1 if quick else 6
+    nm = 2 if quick else 6
     # blocks
     for _ in range(250 * nm):
         b = G.rand_garbage(rng)
@@ -359,8 +359,11 @@ def run(rep, tier, seed):
         for _ in range((6 if len(f) < 8000 else 3) * nm):
             g = G.mutate_table(rng, f, t)
             if len(g) > (64 << 10): continue
+            # cache = 0 in the differential: lcdb keys the block cache by (cache_id, offset) only, so on a
+            # forged index block with two handles of equal offset and different sizes a cached read serves the
+            # earlier block; the model has no cache.  The cached variants go to the sanitizer-only stream.
             o_ = G.opts_str(bs, ri, comp, bits if rng.chance(5, 6) else (0 if bits else 10), cmp if rng.chance(7, 8) else 1 - cmp,
-                            rng.below(2), rng.below(2), rng.below(2), rng.below(2))
+                            rng.below(2), rng.below(2), 0, rng.below(2))
             c = rng.below(4)
             if c == 0: ml.append('table_scan %s %s' % (o_, hx(g)))
             elif c == 1: ml.append('table_get %s %s %s' % (o_, hx(g), ','.join(hx(k) for k in G.gen_targets(rng, keys, cmp, 8))))
@@ -372,11 +375,35 @@ def run(rep, tier, seed):
             vals = [0, 1, len(body), max(len(body) - 5, 0), rng.below(len(body) + 1), rng.choice(G.BOUND64)]
             hs = b''.join(G.enc_varint(rng.choice(vals)) for _ in range(4))
             g = body + hs.ljust(40, b'\x00')[:40] + G.MAGIC.to_bytes(8, 'little')
-        o_ = G.opts_str(64, 1, 0, rng.choice([0, 10]), rng.below(2), rng.below(2), rng.below(2), rng.below(2), rng.below(2))
+        o_ = G.opts_str(64, 1, 0, rng.choice([0, 10]), rng.below(2), rng.below(2), rng.below(2), 0, rng.below(2))
         ml.append(rng.choice(['table_scan %s %s' % (o_, hx(g)),
                               'table_get %s %s %s' % (o_, hx(g), hx(rng.bytes(rng.range(8, 12)))),
                               'table_iter %s %s F,N,L,P,S%s,N' % (o_, hx(g), hx(rng.bytes(rng.range(8, 12))))]))
+    if len(ml) > 40000:
+        # keep the thorough tier inside its time budget: seeded subsample, all command kinds kept
+        seen = set(); keep = []
+        while len(keep) < 40000:
+            i = rng.below(len(ml))
+            if i not in seen:
+                seen.add(i); keep.append(i)
+        keep.sort()
+        ml = [ml[i] for i in keep]
     cm, mm = both(ml, 'malformed-differential')
+    # the same table cases with the block cache enabled: implementation only (plain and sanitizer builds)
+    def with_cache(line):
+        t = line.split(' ')
+        if not t[0].startswith('table_'): return None
+        o = t[1].split(','); o[7] = '1'; t[1] = ','.join(o)
+        return ' '.join(t)
+    ml_cache = [x for x in (with_cache(l) for l in ml) if x]
+    cm_cache = run_balanced(vlib, k1, ml_cache, env=env, shards=8)
+    rep.evaluated(len(ml_cache)); hist['malformed-cached-impl-only'] = len(ml_cache)
+    hist['cached-differs-from-uncached'] = sum(1 for a, b_ in zip(cm_cache, [c for l, c in zip(ml, cm) if l.startswith('table_')]) if a != b_)
+    for line, o in zip(ml_cache, cm_cache):
+        if o.startswith('CRASH'):
+            o1 = vlib.run_lines(k1, [line], env=env)[0]
+            if o1.startswith('CRASH'):
+                v = {'kind': 'crash', 'implementation': o1[:4000]}; v.update(case_ref(line)); rep.violation(v)
     if os.environ.get('C16_DUMP_ML'): open(os.environ['C16_DUMP_ML'], 'w').write('\n'.join(ml) + '\n')
     noob = sum(1 for x in mm if x == 'OOB')
     hist['model-OOB-outcomes'] = noob
@@ -389,25 +416,27 @@ def run(rep, tier, seed):
         k1a = None
         rep.assumptions.append('asan variant did not build: ' + str(e)[:200])
     if k1a:
-        aenv = dict(env); aenv['ASAN_OPTIONS'] = 'allocator_may_return_null=1:detect_leaks=0:abort_on_error=0'
+        aenv = dict(env); aenv['ASAN_OPTIONS'] = 'allocator_may_return_null=1:max_allocation_size_mb=64:detect_leaks=0:abort_on_error=0'
         aenv['UBSAN_OPTIONS'] = 'halt_on_error=1:print_stacktrace=1'
         t0 = time.time()
-        ca = run_balanced(vlib, k1a, ml, env=aenv, shards=vlib.NCPU)
+        ml_all = ml + ml_cache; cm_all = cm + cm_cache
+        ca = run_balanced(vlib, k1a, ml_all, env=aenv, shards=vlib.NCPU)
         timing['asan-run'] = round(time.time() - t0, 1)
-        rep.evaluated(len(ml)); hist['malformed-asan'] = len(ml)
+        rep.evaluated(len(ml_all)); hist['malformed-asan'] = len(ml_all)
         crashes = 0
         suspects = [i for i, o in enumerate(ca) if o.startswith('CRASH')]
         for i in suspects[:300]:
             # a shard stops at its first abort: re-run each unexecuted line alone
-            ca[i] = vlib.run_lines(k1a, [ml[i]], env=aenv)[0]
-        for line, o, oc in zip(ml, ca, cm):
+            ca[i] = vlib.run_lines(k1a, [ml_all[i]], env=aenv)[0]
+        for line, o, oc in zip(ml_all, ca, cm_all):
             if o.startswith('CRASH'):
                 crashes += 1
                 if crashes <= 3:
                     v = {'kind': 'sanitizer-abort', 'variant': 'asan', 'implementation': o[:4000]}
                     v.update(case_ref(line))
                     rep.violation(v)
-            elif o != oc:
+            elif o != oc and 'enomem' not in o and 'ioerr' not in o:
+                # (allocations above 64 MiB fail in the sanitizer run: ENOMEM / read-failed outcomes are not compared)
                 oracle(False, 'asan-vs-plain-output', line, o, oc)
         hist['sanitizer-aborts'] = crashes
     # classification of the malformed outcomes (coverage information)
@@ -429,7 +458,7 @@ def run(rep, tier, seed):
     rep.assumptions += [
         'status codes are compared up to the class {LDB_IOERR, EINVAL, ENOMEM} = "read failed" (mmap and pread report different members)',
         'blocks, keys and values are shorter than 4 GiB (uint32 offsets inside a block are not wrapped in the model)',
-        'the block cache and mmap settings are exercised on the C side only; the model has no such state',
+        'the block cache and mmap settings are exercised on the C side only; the model has no such state; on malformed tables the cached runs are checked for crashes only (cache key = (cache id, block offset): a forged index block with equal offsets and different sizes is served from the cache)',
         'bloom k = bits*69/100 clamped to [1,30] equals the C double computation for 0 <= bits_per_key < 2^31',
     ]
 
@@ -442,7 +471,7 @@ def replay(rep, path):
     env = {'K1_TMPDIR': tmp}
     variant = 'asan' if r.get('variant') == 'asan' else 'nothread'
     if variant == 'asan':
-        env['ASAN_OPTIONS'] = 'allocator_may_return_null=1:detect_leaks=0'
+        env['ASAN_OPTIONS'] = 'allocator_may_return_null=1:max_allocation_size_mb=64:detect_leaks=0'
     k1 = vlib.build_k1(out, variant); vlib.ensure_model()
     c = vlib.run_lines(k1, [case], env=env); m = vlib.run_lines(model_cmd(), [case])
     print('implementation:', c[0][:300]); print('model         :', m[0][:300])
